@@ -40,6 +40,10 @@ pub struct Case {
     /// compiled again -- nothing computed for the first compilation may leak into the second
     #[serde(default)]
     pub recompiled: Option<u8>,
+    /// a single alternative is wrapped in a one-element `NFA::choice` (otherwise it is used as it
+    /// is, tagged on its own stop state when `tagged`)
+    #[serde(default)]
+    pub lone_choice: bool,
 }
 
 #[derive(Clone, Debug, Serialize, Deserialize)]
@@ -47,6 +51,9 @@ pub struct Context {
     pub prefix: Option<Re>,
     pub suffix: Option<Re>,
     pub looped: bool,
+    /// instead of `looped`: Some(0) = `(choice)*`, Some(1) = `(choice)?`
+    #[serde(default)]
+    pub post: Option<u8>,
 }
 
 const ABC: &[u8] = b"abc";
@@ -57,9 +64,12 @@ fn build(case: &Case) -> NFA<usize> {
         return build_choice(case);
     };
     let mut body = build_choice(case);
-    if ctx.looped {
-        body = body.some();
-    }
+    body = match (ctx.post, ctx.looped) {
+        (Some(0), _) => body.many(),
+        (Some(_), _) => body.optional(),
+        (None, true) => body.some(),
+        (None, false) => body,
+    };
     let mut parts: Vec<NFA<usize>> = Vec::new();
     if let Some(p) = &ctx.prefix {
         parts.push(p.build::<usize>(case.variant));
@@ -80,11 +90,12 @@ fn reference(case: &Case) -> Vec<Re> {
         out.push(choice);
         return out;
     };
+    let repeats = matches!((ctx.post, ctx.looped), (Some(0), _) | (None, true));
     let lead: Vec<Re> = ctx
         .prefix
         .iter()
         .cloned()
-        .chain(ctx.looped.then(|| Re::Star(Box::new(choice.clone()))))
+        .chain(repeats.then(|| Re::Star(Box::new(choice.clone()))))
         .collect();
     let mut out: Vec<Re> = case
         .alts
@@ -96,16 +107,18 @@ fn reference(case: &Case) -> Vec<Re> {
         })
         .collect();
     let mut whole: Vec<Re> = ctx.prefix.iter().cloned().collect();
-    whole.push(if ctx.looped { Re::Plus(Box::new(choice)) } else { choice });
+    whole.push(match (ctx.post, ctx.looped) {
+        (Some(0), _) => Re::Star(Box::new(choice)),
+        (Some(_), _) => Re::Opt(Box::new(choice)),
+        (None, true) => Re::Plus(Box::new(choice)),
+        (None, false) => choice,
+    });
     whole.extend(ctx.suffix.iter().cloned());
     out.push(Re::Seq(whole));
     out
 }
 
 fn build_choice(case: &Case) -> NFA<usize> {
-    if !case.tagged && case.alts.len() == 1 {
-        return case.alts[0].build::<usize>(case.variant);
-    }
     let tag = |i: usize, re: &Re| -> NFA<usize> {
         let nfa = re.build::<usize>(case.variant);
         if case.tagged {
@@ -114,6 +127,9 @@ fn build_choice(case: &Case) -> NFA<usize> {
             nfa
         }
     };
+    if case.alts.len() == 1 && !case.lone_choice {
+        return tag(0, &case.alts[0]);
+    }
     match case.nested_from {
         Some(k) if k < case.alts.len() => {
             let mut top: Vec<NFA<usize>> = case.alts[..k]
@@ -344,6 +360,7 @@ impl Property for C15 {
             depth: if recompiled.is_some() { depth.min(5) } else { depth },
             context: None,
             recompiled,
+            lone_choice: false,
         });
         let context = proptest::option::weighted(
             0.4,
@@ -352,8 +369,31 @@ impl Property for C15 {
                 proptest::option::of(re_strategy(WIDE, 2, false)),
                 any::<bool>(),
             )
-                .prop_map(|(prefix, suffix, looped)| Context { prefix, suffix, looped }),
+                .prop_map(|(prefix, suffix, looped)| Context { prefix, suffix, looped, post: None }),
         );
+        // one alternative only: used as it is or wrapped in a one-element choice, tagged or
+        // not, followed/preceded by siblings and optionally under `*` / `?` / `+`
+        let solo = (
+            re_strategy(WIDE, 3, true),
+            any::<bool>(),
+            any::<bool>(),
+            any::<bool>(),
+            proptest::option::of(re_strategy(WIDE, 2, false)),
+            proptest::option::of(re_strategy(WIDE, 2, false)),
+            prop_oneof![Just((None, false)), Just((None, true)), Just((Some(0u8), false)), Just((Some(1u8), false))],
+            extra.clone(),
+        )
+            .prop_map(move |(r, tagged, lone_choice, variant, prefix, suffix, (post, looped), extra)| Case {
+                alts: vec![r],
+                tagged,
+                nested_from: None,
+                variant,
+                extra,
+                depth: depth.min(5),
+                context: Some(Context { prefix, suffix, looped, post }),
+                recompiled: None,
+                lone_choice,
+            });
         let tagged = (
             proptest::collection::vec(re_strategy(WIDE, 3, true), 2..=5),
             proptest::option::of(0usize..4),
@@ -378,9 +418,10 @@ impl Property for C15 {
                     depth: depth.min(5),
                     context,
                     recompiled: None,
+                    lone_choice: false,
                 }
             });
-        prop_oneof![3 => single, 2 => tagged].boxed()
+        prop_oneof![6 => single, 4 => tagged, 1 => solo].boxed()
     }
 
     fn check(&self, case: &Case) -> Outcome {
@@ -415,7 +456,7 @@ impl Property for C15 {
     }
 
     fn rule(&self) -> String {
-        "expressions: recursive AST (depth<=4, <=24 nodes) over bytes {a,b,c,ESC,0xff,'0'} with literal, byte-set (incl. empty), empty, nothing, sequence, choice, optional, one-or-more, zero-or-more, extra weight on ?/+ around operands beginning/ending with a loop; 40% as a tagged choice of 2-6 alternatives (flat or with a nested group, duplicates allowed), in 40% of those placed inside a sequence `prefix (choice) suffix` or `prefix (choice)+ suffix` so that an alternative completes before the whole expression accepts. One single expression in four is compiled, then extended with some()/many()/optional() (the compiled value itself or a clone of it) and compiled again, both automata being judged. Built via the public NFA API (two spellings), compiled, and compared with a Brzozowski-derivative matcher on ALL strings over {a,b,c} up to length 5 (thorough 6) plus up to 6 random strings of length <20: acceptance, dead-transition soundness, tag sets, terminal flag, determinism. non-trivial = some postfix operator is applied to a non-atomic operand".into()
+        "expressions: recursive AST (depth<=4, <=24 nodes) over bytes {a,b,c,ESC,0xff,'0'} with literal, byte-set (incl. empty), empty, nothing, sequence, choice, optional, one-or-more, zero-or-more, extra weight on ?/+ around operands beginning/ending with a loop; 40% as a tagged choice of 2-6 alternatives (flat or with a nested group, duplicates allowed), in 40% of those placed inside a sequence `prefix (choice) suffix` or `prefix (choice)+ suffix` so that an alternative completes before the whole expression accepts. One case in eleven has a single alternative (tagged on its own stop state or not, used directly or wrapped in a one-element choice) between an optional prefix and suffix and optionally under * / ? / +. One single expression in four is compiled, then extended with some()/many()/optional() (the compiled value itself or a clone of it) and compiled again, both automata being judged. Built via the public NFA API (two spellings), compiled, and compared with a Brzozowski-derivative matcher on ALL strings over {a,b,c} up to length 5 (thorough 6) plus up to 6 random strings of length <20: acceptance, dead-transition soundness, tag sets, terminal flag, determinism. non-trivial = some postfix operator is applied to a non-atomic operand".into()
     }
 
     fn assumptions(&self) -> Vec<String> {
